@@ -308,7 +308,7 @@ func runShards(bin string, p *propInfo, tier string, seed int, scratch, replay s
 				"VERIF_MODE=" + mode, "VERIF_BIN=" + bin, "GOMAXPROCS=2",
 				"VERIF_DEADLINE=" + fmt.Sprint(time.Now().Add(to*8/10).Unix()),
 			}
-			if mode == "disturb" && tier == "quick" && (prop == "C01" || prop == "C02") {
+			if mode == "disturb" && (prop == "C01" || prop == "C02") {
 				env = append(env, "VERIF_DISTURB_THIN=4")
 			}
 			if mode == "race" {
